@@ -83,6 +83,9 @@ class FortranCodegenConservative(FortranCodegen):
 
             header = o.source.string.splitlines()[0]
 
+            # The flag concerns this node only; it is passed on explicitly for a further ELSE IF branch
+            kwargs.pop('is_elseif', None)
+
             self.depth += self.style.conditional_indent
             body = self.visit(o.body, **kwargs)
             if o.has_elseif:
